@@ -510,3 +510,103 @@ def typed_pairs(rng, knots):
             out.append(('zero', pos, z, x) if rng.random() < 0.5 else (pos, 'zero', x, z))
     out.append(('zero', 'zero', 0.0, -0.0))
     return out
+
+
+# ------------------------------------------------------------ large inputs (C14 large-input stage; additions only)
+
+#: round numbers software chunks / caches / switches algorithm at
+BLOCK_BOUNDARIES = (1000, 1024, 2048, 3072, 4096, 8192, 10000)
+
+LONG_ORDERS = ('shuffled', 'descending', 'record', 'ascending-with-repeats', 'blocks-reversed')
+
+
+def long_size(rng, band):
+    """A size past one of the round numbers, never a multiple of a block size: band 0 -> 1001..1023 (past 1000,
+    short of 1024), band 1 -> 1025..2047, band 2 -> 2049..4095, band 3 -> 4097..5000, band 4 -> 8193..10001."""
+    lo, hi = ((1001, 1023), (1025, 2047), (2049, 4095), (4097, 5000), (8193, 10001))[band]
+    while True:
+        n = rng.randrange(lo, hi + 1)
+        if all(n % b for b in (1000, 1024)):
+            return n
+
+
+def long_levels(rng, knots, n, order):
+    """n levels for ONE array call: about 55 % distinct levels inside the knot range, 12 % exactly at knots (each knot
+    many times), 18 % beyond either end (far, near, one ulp), 15 % copies of a few values; ordered as `order` says -
+    'shuffled'; 'descending'; 'record' (an oscillating water-level record: a slow wave plus noise, leaving the knot
+    range at its crests and troughs); 'ascending-with-repeats' (sorted, ties kept); 'blocks-reversed' (sorted, then
+    every block of 1000 reversed).  Except for the two sorted orders, a knot, a level above the range and a level
+    below it are planted just before, at and just after every index of BLOCK_BOUNDARIES below n."""
+    xmin, xmax = knots[0], knots[-1]
+    span = xmax - xmin
+    if order == 'record':
+        period = rng.choice([337.0, 811.0, 1499.0])
+        mid, amp = 0.5 * (xmin + xmax), 0.62 * span
+        xs = [round(mid + amp * math.sin(2 * math.pi * i / period) + rng.uniform(-0.03, 0.03) * span, 2) for i in range(n)]
+    else:
+        xs = []
+        few = [place(rng, knots, 'inside') for _ in range(5)]
+        for _ in range(n):
+            r = rng.random()
+            if r < 0.55:
+                xs.append(xmin + span * rng.random())
+            elif r < 0.67:
+                xs.append(rng.choice(knots))
+            elif r < 0.76:
+                xs.append(place(rng, knots, 'below'))
+            elif r < 0.85:
+                xs.append(place(rng, knots, 'above'))
+            else:
+                xs.append(rng.choice(few))
+        if order in ('descending', 'ascending-with-repeats', 'blocks-reversed'):
+            xs.sort(reverse=(order == 'descending'))
+        if order == 'blocks-reversed':
+            xs = [x for k in range(0, n, 1000) for x in reversed(xs[k:k + 1000])]
+    if order in ('shuffled', 'record', 'blocks-reversed'):
+        for b in BLOCK_BOUNDARIES:
+            for i, x in ((b - 1, rng.choice(knots[1:-1])), (b, xmax + rng.choice([0.5, 250.0])),
+                         (b + 1, xmin - rng.choice([0.5, 250.0])), (b - 2, xmax), (b + 2, xmin)):
+                if 0 <= i < n:
+                    xs[i] = x
+    return [float(x) for x in xs]
+
+
+def many_ranges(rng, knots, n):
+    """A long history of integrate() calls on ONE object: levels (a grid of n + 1 levels reaching beyond both ends of
+    the knot range, like the grid of a rise curve), `calls` = n + n // 20 DISTINCT ranges as index pairs (every step of
+    the grid in turn, now and then a longer range or one with the limits swapped), and `repeats`: ranges asked AGAIN
+    after all of them - the earliest ones, the ones just before / at / after every round count of calls (1000, 1024,
+    2048, ...), the latest ones and a random sample - each in the order it was first asked in and with the limits
+    swapped."""
+    xmin, xmax = knots[0], knots[-1]
+    span = xmax - xmin
+    lo = xmin - span * rng.uniform(0.05, 0.3)
+    hi = xmax + span * rng.uniform(0.05, 0.3)
+    step = round_sig((hi - lo) / n, 3)
+    lo = round(lo, 2)
+    levels = [float(lo + i * step) for i in range(n + 1)]
+    if rng.random() < 0.5:      # the ends of the knot range as grid levels
+        for x in (xmin, xmax):
+            i = min(range(n + 1), key=lambda j: abs(levels[j] - x))
+            levels[i] = float(x)
+    assert all(b > a for a, b in zip(levels, levels[1:])), 'harness: grid not increasing'
+    calls, seen = [], set()
+    for i in range(n):
+        calls.append([i, i + 1] if rng.random() < 0.9 else [i + 1, i])
+        seen.add((i, i + 1))
+        if i % 20 == 7:
+            j = min(n, i + rng.choice([2, 5, 40, 400]))
+            if (i, j) not in seen:
+                seen.add((i, j))
+                calls.append([i, j] if rng.random() < 0.7 else [j, i])
+    m = len(calls)
+    idx = set(range(0, min(m, 40))) | set(range(max(0, m - 10), m)) | {rng.randrange(m) for _ in range(40)}
+    for b in BLOCK_BOUNDARIES:
+        idx |= {i for i in range(b - 3, b + 4) if 0 <= i < m}
+        idx |= {i for i in range(m - b - 3, m - b + 4) if 0 <= i < m}     # counted back from the latest call
+    repeats = []
+    for i in sorted(idx):
+        a, b = calls[i]
+        repeats += [[a, b], [b, a]]
+    rng.shuffle(repeats)
+    return dict(levels=levels, calls=calls, repeats=repeats)
